@@ -314,7 +314,7 @@ class World:
         if hasattr(v, "z_val"):
             return v.z_val(self)
         if isinstance(v, (list, tuple)):
-            if any(isinstance(x, (Sym, Obj)) for x in v):
+            if any(isinstance(x, (Sym, Obj)) or hasattr(x, "z_val") or isinstance(x, (list, tuple)) for x in v):
                 f = self.uf_raw(f"seq{len(v)}_{type(v).__name__}", [Val] * len(v), Val)
                 return f(*[self.to_val(x) for x in v]) if v else self.const_val(v)
             return self.const_val(v)
